@@ -121,9 +121,16 @@ func (c *EvalCtx) soft() *EvalCtx {
 // goal evaluates a clause as an obligation: a clause that cannot be evaluated on
 // the current code (e.g. it names a variable that no longer exists) is a failed
 // obligation, never a silent pass.
-func (c *EvalCtx) goal(x Expr) (*Term, string) {
+func (c *EvalCtx) goal(x Expr) (t *Term, note string) {
 	s := c.soft()
-	t := s.boolean(x)
+	// a clause written for the code as it was can be ill-typed on changed code (a variable
+	// that became a byte slice, say): that is a clause that cannot be evaluated, not a crash
+	defer func() {
+		if r := recover(); r != nil {
+			t, note = TFalse, fmt.Sprintf(" [clause cannot be evaluated on this code: %v]", r)
+		}
+	}()
+	t = s.boolean(x)
 	if *s.nerr > 0 {
 		return TFalse, " [clause cannot be evaluated on this code: " + *s.lastErr + "]"
 	}
@@ -1402,7 +1409,16 @@ func spliceFn(srt string) string {
 func (c *EvalCtx) assume(x Expr) {
 	if c.nerr == nil {
 		s := c.soft()
-		s.assume(x)
+		func() {
+			defer func() {
+				if r := recover(); r != nil {
+					*s.nerr++
+					*s.lastErr = fmt.Sprint(r)
+				}
+			}()
+			s.assume(x)
+		}()
+
 		if *s.nerr > 0 {
 			c.e.noteAssumption("clause not assumed because it cannot be evaluated here: " + exprStr(x) + " (" + *s.lastErr + ")")
 		}
